@@ -5,7 +5,9 @@
 //
 // Ops (a case starts with `reset svc=1`):
 //
-//	sreq k=<tag>    the service issues a request to a recording peer
+//	sreq k=<tag>    the service issues a request to a recording peer; with again=1 its completion
+//	                callback, when called with an error (ErrTimeout, from inside checkExpired = from
+//	                inside the check timer's own callback), issues the follow-up request <tag>+1000
 //	sresp k=<tag>   the peer answers request <tag>
 //	sadv d=<ms>     virtual time passes
 //
@@ -21,6 +23,7 @@ import (
 	"log"
 	"reflect"
 	"sort"
+	"strconv"
 	"strings"
 	"sync"
 	"syscall"
@@ -276,9 +279,14 @@ func (w *svcWorld) exec(op string) string {
 	if ws[0] == "reset" {
 		if w.svc != nil {
 			// let the previous service's requests expire and its timer free itself
-			if id, ok := w.own(); len(w.svc.Handlers) > 0 || id != 0 || !ok {
-				time.Sleep(33 * time.Second)
-				synctest.Wait()
+			// (a retried request lives for another 30 s)
+			for i := 0; i < 4; i++ {
+				if id, ok := w.own(); len(w.svc.Handlers) > 0 || id != 0 || (!ok && i == 0) {
+					time.Sleep(33 * time.Second)
+					synctest.Wait()
+				} else {
+					break
+				}
 			}
 		}
 		w.mu.Lock()
@@ -311,8 +319,14 @@ func (w *svcWorld) exec(op string) string {
 		if !ok {
 			return "bad-op"
 		}
+		again := hx.KVInt(ws, "again") == 1
+		svc := w.svc
 		w.onSvc(func() {
-			w.svc.RequestEx(w.peerPid, "c14.check", &messages.TestHello{I: int32(k)}, func(err error, raw interface{}) {})
+			svc.RequestEx(w.peerPid, "c14.check", &messages.TestHello{I: int32(k)}, func(err error, raw interface{}) {
+				if again && err != nil {
+					svc.RequestEx(w.peerPid, "c14.check", &messages.TestHello{I: int32(k + 1000)}, func(err error, raw interface{}) {})
+				}
+			})
 		})
 		return w.obs()
 	case "sresp":
@@ -341,6 +355,14 @@ func (w *svcWorld) exec(op string) string {
 	return "bad-op"
 }
 
+func pendOf(obs string) int {
+	v, _ := hx.KV(hx.Words(obs), "pend")
+	n, _ := strconv.Atoi(v)
+	return n
+}
+
+func followSeen(obs string, last int) bool { return pendOf(obs) < last }
+
 // TestSvc: generated busy / idle cycles of a real service.
 func TestSvc(t *testing.T) {
 	logger.GetLogProxy("exception").SetLogLevel(0)
@@ -352,6 +374,7 @@ func TestSvc(t *testing.T) {
 	synctest.Test(t, func(t *testing.T) {
 		w := newSvcWorld()
 		w.h = h
+		lastPend := 0
 		run := func(op string) {
 			obs := w.exec(op)
 			if strings.Contains(obs, "live= own=0") && strings.HasPrefix(op, "sadv") {
@@ -360,6 +383,10 @@ func TestSvc(t *testing.T) {
 			if strings.Contains(obs, "cb:") {
 				h.Count("reach.svc-check-tick")
 			}
+			if strings.HasPrefix(op, "sresp") && hx.KVInt(hx.Words(op), "k") > 1000 && followSeen(obs, lastPend) {
+				h.Count("reach.svc-follow-up-answered")
+			}
+			lastPend = pendOf(obs)
 			h.Emit(op, obs)
 		}
 		if ops := hx.ReplayOps(); ops != nil {
@@ -377,7 +404,7 @@ func TestSvc(t *testing.T) {
 				run("reset svc=1")
 				h.Count("case.svc")
 				k := 0
-				var open []int
+				var open, retry []int
 				steps := 6 + r.Intn(14)
 				for j := 0; j < steps; j++ {
 					switch x := r.Intn(10); {
@@ -385,7 +412,17 @@ func TestSvc(t *testing.T) {
 						k++
 						open = append(open, k)
 						h.Count("op.sreq")
-						run(fmt.Sprintf("sreq k=%d", k))
+						if r.Intn(3) == 0 {
+							h.Count("op.sreq.retrying-callback")
+							retry = append(retry, k)
+							run(fmt.Sprintf("sreq k=%d again=1", k))
+						} else {
+							run(fmt.Sprintf("sreq k=%d", k))
+						}
+					case x < 4 && len(retry) > 0:
+						// answer a follow-up request (it exists only if the original timed out)
+						h.Count("op.sresp.follow-up")
+						run(fmt.Sprintf("sresp k=%d", 1000+retry[r.Intn(len(retry))]))
 					case x < 5 && len(open) > 0:
 						i := r.Intn(len(open))
 						h.Count("op.sresp")
@@ -411,6 +448,22 @@ func TestSvc(t *testing.T) {
 				run(fmt.Sprintf("sresp k=%d", k))
 				run("sadv d=2100")
 				run("sadv d=3000")
+				if r.Intn(3) == 0 {
+					// third busy period: a request that is never answered, its callback retries once; the
+					// follow-up is answered or times out in turn; then idle again
+					h.Count("scenario.svc-timeout-callback-retries")
+					k++
+					run(fmt.Sprintf("sreq k=%d again=1", k))
+					run(fmt.Sprintf("sadv d=%d", h.Pick(29500, 30000, 30500)))
+					run(fmt.Sprintf("sadv d=%d", h.Pick(600, 1000, 1600)))
+					if r.Intn(2) == 0 {
+						run(fmt.Sprintf("sresp k=%d", 1000+k))
+						run("sadv d=2100")
+					} else {
+						run("sadv d=31500")
+					}
+					run("sadv d=2100")
+				}
 			}
 		}
 		h.Close()
